@@ -441,6 +441,26 @@ theorem C15_others_unchanged_copyHeaders (var : Variant) (ctx : Ctx) (orig : Hdr
 
 /-! ### Theorem 3 — Via / X-Forwarded-* / X-Real-IP additions keep the existing values -/
 
+/-- **…and nothing else arrives**: every header olla sends upstream either bears a name the client sent
+    or is one of the headers olla owns — no header of another request, whatever else is in flight. -/
+theorem C15_nothing_foreign (var : Variant) (ctx : Ctx) (orig : Hdr) (model : Value) :
+    Olla.Spec.C15.nothingForeign orig (engineHeaders var ctx orig model) = true := by
+  unfold Olla.Spec.C15.nothingForeign
+  rw [List.all_eq_true]
+  intro e he
+  rcases key_cases he with h | h
+  · have hw : Olla.Spec.C15.ollaWritten.contains e.1 = true := by
+      simp only [List.mem_cons, List.mem_nil_iff, or_false] at h
+      rcases h with h | h | h | h | h | h | h <;> (rw [h]; decide)
+    rw [Bool.or_eq_true]; exact Or.inl hw
+  · have hmem : e ∈ orig := by
+      unfold copied at h
+      exact (List.mem_filter.mp h).1
+    rw [Bool.or_eq_true]
+    right
+    rw [List.any_eq_true]
+    exact ⟨e, hmem, by simp⟩
+
 private theorem spec_valuesOf (h : Hdr) (k : Name) : Olla.Spec.C15.valuesOf h k = valuesOf h k := rfl
 
 private theorem joinWith_eq : ∀ l : List Value, joinWith commaSp l = Olla.Spec.C15.joinComma l
